@@ -228,6 +228,12 @@ Copy ==
            /\ CopyStep(rd, wr, Ev.n, Ev.res, IF Has(Ev, "side") THEN Ev.side ELSE "read", D, rd2, wr2)
            /\ RStepOK(Ev, rd2)
            /\ (ok /\ Has(Ev, "wcnt")) => Ev.wcnt = wr2.cnt
+           \* a copy that failed because the source ran out: every write that was made succeeded, so a
+           \* counting writer has counted exactly the bits the stream took: what was delivered during the
+           \* call, less what was pending before, plus less than a word still pending
+           /\ (~ok /\ Has(Ev, "wcnt") /\ Has(Ev, "side") /\ Ev.side = "read" /\ wr.cnt >= 0) =>
+                 LET lo == 8 * Len(Ev.nb) - Len(wr.pend)
+                 IN  lo <= Ev.wcnt - wr.cnt /\ Ev.wcnt - wr.cnt <= lo + wr.w - 1 /\ Ev.wcnt - wr.cnt <= Ev.n
            /\ rds' = [rds EXCEPT ![Ev.o] = rd2]
            /\ wrs' = [wrs EXCEPT ![Ev.ow] = Logged(wr2, Ev.nb)]
 
